@@ -43,10 +43,15 @@ def cells(tier):
                             continue
                         for assign in itertools.product(range(len(DURS)), repeat=nmsg):
                             out.append(dict(kind=kind, L=L, nq=nq, fail=fail, arrival=arrival, assign=list(assign)))
+        # five messages on two queues: each consumer's window holds more than it can start at once
+        # (RabbitMQ: deliveries to a paused consumer are sent back after 100 ms)
+        for L in (1, 2):
+            for assign in itertools.product((1, 2), repeat=5):
+                out.append(dict(kind=kind, L=L, nq=2, fail=None, arrival="before", assign=list(assign)))
     return out
 
 
-def execute(cell, late_at=None):
+def execute(cell, late_at=None, cancel_at=None):
     kind = cell["kind"]
     durs = [DURS[i] for i in cell["assign"]]
     n = len(durs)
@@ -112,6 +117,14 @@ def execute(cell, late_at=None):
                 asyncio.ensure_future(x.world.broker.enqueue(
                     x.world.key(m_["id"], m_["topic"], m_["queue"]), m_["payload"], m_["params"](x.world)), loop=x.loop)
             x.at_iteration(late_at, put)
+        if cancel_at is not None:
+            def server_cancel():
+                # RabbitMQ cancels the consumer server-side (queue failover): the client has to restart it
+                for c in x.world.server.consumers:
+                    if c["active"]:
+                        c["chan"].server_cancel(c["tag"])
+                        break
+            x.at_iteration(cancel_at, server_cancel)
 
     res = run_worker(kind, build=build, messages=msgs, queues=queues, stop_at=horizon, during=during, inject=inject,
                      worker_kw=dict(tasks_limit=cell["L"], graceful_shutdown_time=0.2), max_iters=1_000_000, settle=0.3)
@@ -184,6 +197,13 @@ def jobs(tier):
             ks = list(range(0, base.iters))
             for lo in range(0, len(ks), 50):
                 out.append(dict(sweep=cell, ks=ks[lo:lo + 50]))
+    # RabbitMQ cancels the worker's consumer at every iteration
+    for L in (1, 2):
+        cell = dict(kind="amqp", L=L, nq=1, fail=None, arrival="before", assign=[2, 2, 1])
+        base, _, _ = execute(cell)
+        ks = list(range(0, base.iters))
+        for lo in range(0, len(ks), 50):
+            out.append(dict(sweep=cell, ks=ks[lo:lo + 50], what="cancel"))
     return out
 
 
@@ -191,17 +211,20 @@ def run_job(job):
     acc = Acc()
     todo = [(c, None) for c in job.get("cells", [])] + [(job["sweep"], k) for k in job.get("ks", [])]
     for cell, k in todo:
-        res, viol, summary = execute(cell, k)
+        if job.get("what") == "cancel":
+            res, viol, summary = execute(cell, None, k)
+        else:
+            res, viol, summary = execute(cell, k)
         acc.executions += 1
         acc.handles += res.handles
         acc.choice_points += 1
-        acc.outcomes.add(digest([cell, k is not None, summary]))
-        acc.phases[("sweep" if k is not None else cell["arrival"]) + f":peak={summary['peak']}/L={cell['L']}"] += 1
+        acc.outcomes.add(digest([cell, k is not None, job.get("what"), summary]))
+        acc.phases[("server-cancel" if job.get("what") else "sweep" if k is not None else cell["arrival"]) + f":peak={summary['peak']}/L={cell['L']}"] += 1
         for sig, what in viol:
             acc.violations.append(dict(
                 signature=f"{cell['kind']} {sig}",
-                what=what + f" [cell {cell}, late message at iteration {k}]",
-                job=dict(cells=[cell]) if k is None else dict(sweep=cell, ks=[k]),
+                what=what + f" [cell {cell}, {'consumer cancelled by the server' if job.get('what') else 'late message'} at iteration {k}]",
+                job=dict(cells=[cell]) if k is None else dict(sweep=cell, ks=[k], what=job.get("what")),
                 detail=summary,
             ))
         if len(acc.samples) < 2:
